@@ -170,21 +170,21 @@ var errInjected = errors.New("verif: injected transport error")
 // bpipe is a unidirectional in-memory byte pipe. Write never blocks.
 // Faults: cutAfter (reader sees EOF/err after N bytes in total), failWriteAt (the k-th Write fails).
 type bpipe struct {
-	mu      sync.Mutex
-	cond    *sync.Cond
-	buf     []byte
-	rclosed bool  // reader side closed: writes fail
-	wclosed bool  // writer side closed: reads hit EOF after draining
-	werr    error // error reads return after draining (instead of EOF)
-	nread   int
-	nwrit   int
-	writes  int
-	onWrite func(p []byte) // called under mu at each Write (linearization point of "bytes left the writer")
+	mu         sync.Mutex
+	cond       *sync.Cond
+	buf        []byte
+	rclosed    bool  // reader side closed: writes fail
+	wclosed    bool  // writer side closed: reads hit EOF after draining
+	werr       error // error reads return after draining (instead of EOF)
+	nread      int
+	nwrit      int
+	writes     int
+	onWrite    func(p []byte) // called under mu at each Write (linearization point of "bytes left the writer")
 	afterWrite func(p []byte) // called after the Write completed, without the lock (used to stretch the gap between two writes)
-	failAt  int            // 1-based index of the Write call that fails (0 = never)
-	cut     int            // reader is cut after this many bytes (-1 = never)
-	cutErr  error          // error to report at the cut (nil = io.EOF)
-	cutHit  bool           // a Read has reported the cut
+	failAt     int            // 1-based index of the Write call that fails (0 = never)
+	cut        int            // reader is cut after this many bytes (-1 = never)
+	cutErr     error          // error to report at the cut (nil = io.EOF)
+	cutHit     bool           // a Read has reported the cut
 }
 
 func newBpipe() *bpipe {
